@@ -51,13 +51,13 @@ CHECKS = {
         "no block comparison is decided by integer promotion; every loop that subscripts the block buffer visits exactly the blocks of the buffer for every size 0..2W+1 (bounds folded; a separately treated last block keeps every valid bit under its mask); the in-place block moves of the shifts run away from their sources; the popcount table and the bit-reference assignment operators are folded exactly; all rules are repeated on the narrowest block type under the other language levels. Bit values produced by operation histories are NOT decided.",
    note="Assumes callers respect pos < size() for unchecked single-bit operations and equal sizes for blockwise operators; a restructured shift algorithm is reported as analysis-broken (exit 2), not as a violation; trusts sa/flow.py, sa/ceval.py, sa/linear.py."),
  "C17": dict(level="other", design="4.15",
-   technique="abstract execution of INSTANTIATED dispatchers over the calls clang resolved: static_dispatcher for every pair of dynamic types (same and different rhs list, symmetric or not), basic_fast_dispatcher insert/dispatch over the nested table with three levels; path-wise guard-dominance rules for the map lookups, the visitors and resize_container (linear entailment incl. its exit postcondition)",
+   technique="abstract execution of INSTANTIATED dispatchers over the calls clang resolved: static_dispatcher for every pair of dynamic types (same and different rhs list, symmetric or not), basic_fast_dispatcher insert/dispatch over the nested table with three levels; path-wise guard-dominance rules for the map lookups, the visitors and resize_container (linear entailment incl. its exit postcondition); policy reachability over the calls clang resolved in instantiations",
    text="Decides structural clauses: static_dispatcher<(A,B,C)[, rhs (C,B)]> ends, for every pair of dynamic types, in exec.run on the two operands cast to exactly those types, swapped exactly when "
         "symmetric and the rhs type precedes the lhs type in its list, and in exec.on_error for a type outside the lists (64 scenarios, overload selection/tag dispatch/helpers followed through the resolved callees); "
         "basic_fast_dispatcher::dispatch calls m_callbacks[idx0][idx1][idx2](args..., udargs...) with idx_k the class index of argument k, subscripting each level only after idx_k < size() was established and raising the error otherwise; "
         "insert<D0,D1,D2> stores the handler at that slot with the static class indices of D in order, subscripting only after resize_container; resize_container never shrinks a level and leaves index[I] < size() on every path; "
         "in every member of basic_dispatcher an iterator from m_callback_map.find() is used only where it was compared with end(); registration assigns (replaces) under make_key<D...>(); keys come from typeid(args)...; "
-        "handler wrappers cast args position-wise and append the undispatched ones; a failed visitor cast goes to the configured catch_all policy, a successful one to visit().",
+        "handler wrappers cast args position-wise and append the undispatched ones; a failed visitor cast goes to the configured catch_all policy, a successful one to visit(). accept_impl of a visitable declared with a non-default catch_all (the library's throwing policy, a user policy; const and non-const) reaches on_unknown_visitor of exactly that policy, through whatever helpers.",
    note="Run-time class-index state across registration histories is not decided; unrelated leaf classes stand for the dynamic types; trusts the two small interpreters in sa/rules/c17_static.py and c17_fast.py."),
  "C10": dict(level="other", design="4.8",
    technique="symbolic evaluation of every operator / wrapper body over the parts of *this and the operands (two spellings of the same computation evaluate to the same value), truth tables of ==/!= over (real equal, imag equal), polynomial identity of the mul/div formulas in (a,b,c,d), Annex-G idiom rule, closure-kind compile witnesses",
@@ -65,7 +65,7 @@ CHECKS = {
         "==/!= have the truth table of real&&imag equality along every path, unary -/+ negate both parts / return the operand; each binary operator X builds its result from the left operand and applies X= with the right; compound "
         "scalar forms touch exactly the parts complex arithmetic says; member assignments are (real<-real, imag<-imag) symmetric; the textbook and Annex G "
         "mul/div (first attempt, recovery, scaled quotient) compute ac-bd, ad+bc, (ac+bd)/(cc+dd), (bc-ad)/(cc+dd) as polynomials; Annex G boxing idioms "
-        "classify the component they box, the divisor scale is logb(max(|c|,|d|)), scalbn exponents agree; all closure-kind combinations compile. A binary operation with at least one IEEE operand yields an IEEE xcomplex in either order (witnesses); the divisor is rescaled whenever its exponent is finite, under no further threshold.",
+        "classify the component they box, the divisor scale is logb(max(|c|,|d|)), scalbn exponents agree; all closure-kind combinations compile. A binary operation with at least one IEEE operand yields an IEEE xcomplex in either order (witnesses); the divisor is rescaled whenever its exponent is finite, under no further threshold. The divisor scale of the IEEE division uses the NaN-ignoring fmax.",
    note="Rounding, special-value outcomes and scaling accuracy are numeric and NOT decided; trusts the polynomial evaluator and clang/g++."),
  "C11": dict(level="other", design="4.9",
    technique="sibling-storage pairing rule over every member/constructor pattern of both container families, ==/!= shape, paired-iterator lockstep (symbolic positions), default-initialisation witnesses, contents of the built storages (zeroing flags), reference-parameter-before-reallocation typestate",
@@ -76,33 +76,33 @@ CHECKS = {
         "and are not trivially default constructible; make_sequence yields value-initialised / filled storages; a value passed by reference is consumed before the storage it may alias is reallocated; == of the flag bitset covers every block.",
    note="Assumes make_sequence and the std containers behave as specified; at()/resize of the flag bitset itself belong to C03."),
  "C12": dict(level="other", design="4.10",
-   technique="symbolic-position (polynomial) evaluation of every derived operator and every iterator primitive over the template patterns; ordering truth tables; primitive exhaustiveness",
+   technique="symbolic-position (polynomial) evaluation of every derived operator and every iterator primitive over the template patterns; ordering truth tables; primitive exhaustiveness; sign-conversion lint on instantiated members",
    text="Decides mutual consistency of the operators: the derived !=,<=,>=,> of both bases are evaluated under the three orderings with == and < as atoms; "
         "it++/it--/it+n/n+it/it-n/it[n] and the size_t extension are executed symbolically (result position, argument untouched, old value returned); "
         "every class built on a base must provide the primitives it derives from; the primitives of xbitset/xoptional/xcomplex/xstepping/xkey/xvalue "
-        "iterators must move every position field by exactly +-1/+-n (times the step) on every path, subtract/compare the same fields in the same orientation. begin/end/cbegin/cend/rbegin/rend/crbegin/crend of xdynamic_bitset_base (const and non-const) designate position 0 / size() and reverse_iterator(end) / reverse_iterator(begin) through whatever delegation.",
+        "iterators must move every position field by exactly +-1/+-n (times the step) on every path, subtract/compare the same fields in the same orientation. begin/end/cbegin/cend/rbegin/rend/crbegin/crend of xdynamic_bitset_base (const and non-const) designate position 0 / size() and reverse_iterator(end) / reverse_iterator(begin) through whatever delegation. No operand of / % >> or an ordering in the instantiated iterator members is an implicit signed-to-unsigned conversion (a - b for a before b stays negative); a range accessor never returns a container-less iterator.",
    note="Traversal visiting exactly the container's elements (begin/end of each container) is covered only for the two sequence families by C11; sub-iterators are assumed lawful."),
  "C07": dict(level="proof", design="4.7",
-   technique="generated static_assert / must-compile / must-not-compile witnesses discharged by the compilers, plus designation rules on instantiated xclosure_wrapper<T&> / <T> (what get(), operator& and the constructors designate, helpers followed through their resolved callees) and on the assignment/swap/equality patterns",
+   technique="generated static_assert / must-compile / must-not-compile witnesses discharged by the compilers, plus designation rules on instantiated xclosure_wrapper<T&> / <T> (what get(), operator& and the constructors designate, helpers followed through their resolved callees) and on the assignment/swap/equality patterns; concrete small-model execution of the bit-reference assignments",
    text="Decides the type/aliasing structure for every value category: ~260 static_asserts on the four mapping traits, the factories, ref-qualified "
         "accessors of xclosure_wrapper/xoptional/xmasked_value/xcomplex (incl. mixed closures), operator& of wrappers and proxies, forward_sequence and "
         "proxy_wrapper; must-compile witnesses with a type that can be neither copied nor moved prove 'without copying it', move-only temporaries prove "
         "ownership; must-not-compile witnesses reject writes through const closures; on the instantiated wrappers an lvalue closure stores &param, get() yields *m_wrappee and operator& m_wrappee, a value closure stores the value, "
-        "yields m_wrappee and &m_wrappee; nothing rebinds the stored pointer; assignment, swap and equality act on the referents of both operands. Converting construction/assignment of an owning xoptional from an rvalue reference-closure proxy copies the referent (resolved payload constructor/assignment), and bitset element references write exactly the designated bit from the source (exact folding shared with C03).",
+        "yields m_wrappee and &m_wrappee; nothing rebinds the stored pointer; assignment, swap and equality act on the referents of both operands. Converting construction/assignment of an owning xoptional from an rvalue reference-closure proxy copies the referent (resolved payload constructor/assignment), and bitset element references write exactly the designated bit from the source (exact folding shared with C03). The bit-reference assignment operators, in any spelling, are executed on concrete models including the case where source and destination are the same bit.",
    note="Checked with clang++ -std=gnu++17 and g++ -std=gnu++14 (quick) and both compilers x C++14/17/20 (thorough); const rvalue sources may map to a const value; lifetime misuse in user code is out of scope."),
  "C14": dict(level="other", design="4.12",
-   technique="call-site/effect lint closed under library helpers, interval check of byte reads, cursor discipline by a linear symbolic step of the block loop (cursor/remaining deltas, load offsets against the guard) and a per-remainder evaluation of the tail, and equality of the dataflow summary (initial value, per-block update, post-loop value per remainder as expression trees, helpers and locals followed) with the reference MurmurHash2/64A",
+   technique="call-site/effect lint closed under library helpers, interval check of byte reads, cursor discipline by a linear symbolic step of the block loop (cursor/remaining deltas, load offsets against the guard) and a per-remainder evaluation of the tail, and equality of the dataflow summary (initial value, per-block update, post-loop value per remainder as expression trees, helpers and locals followed) with the reference MurmurHash2/64A; index-form block loops by the division identity L = w*q + r; symbolic-byte execution of the tail loader",
    text="Decides structural necessary conditions: entry points forward (buffer,length,seed) unchanged to the right kernel; std::hash<xbasic_fixed_string> "
         "hashes exactly (data(), size(), constant); no pointer-to-integer conversion, non-local state, foreign callee or wider-pointer block load in the "
         "call graph; every byte read entering arithmetic is zero-extended; in the 32-bit kernel the cursor advances by what the remaining length loses, each block load lies inside the bytes the loop guard guarantees and for every remainder 0..3 the tail reads exactly cursor[0..r-1]; in the 64-bit kernel the loop runs to start + (length & ~7) in steps of 8 with loads inside the block and load_bytes(end, length & 7) runs only under (length & 7) != 0; and the expression trees "
-        "of the hash value (initial value, block update, tail and finalisation for every remainder) equal the reference algorithm's (constants, shifts, byte lanes, mix order). Value equality for every input is not decided as such. The masks applied to the length are folded with the conversions clang recorded (a narrower mask that is zero-extended is reported).",
+        "of the hash value (initial value, block update, tail and finalisation for every remainder) equal the reference algorithm's (constants, shifts, byte lanes, mix order). Value equality for every input is not decided as such. The masks applied to the length are folded with the conversions clang recorded (a narrower mask that is zero-extended is reported). Block loops may be written with a moving cursor or with a block index (q = length / w; loads at base + w*i inside their block; the tail starts at base + w*q and is driven by length % w in any spelling); load_bytes is executed over symbolic bytes for every tail count.",
    note="Reference trees are built in sa/rules/c14.py from MurmurHash2.cpp; an index-based block loop or a rewritten load_bytes is reported as analysis-broken (exit 2), never as a violation; x86-64 only."),
  "C20": dict(level="other", design="4.18",
-   technique="API-misuse rule for every readlink site of the header (failure test, counted use, length < capacity by linear entailment, scalar locals read through), abstract string evaluation of prefix_path (cut = everything before the last separator), evaluation of endianness() for each value of the probe byte along every path under two include orders and three standards",
+   technique="API-misuse rule for every readlink site of the header (failure test, counted use, length < capacity by linear entailment, scalar locals read through), abstract string evaluation of prefix_path (cut = everything before the last separator), evaluation of endianness() for each value of the probe byte along every path under two include orders and three standards; path-wise linear entailment per readlink call",
    text="Decides structural conditions on the Linux configuration: readlink's result is tested for failure, the path is built from the returned "
         "length (the buffer is never used as a C string unless a terminator byte is reserved), and the building branch implies length < capacity "
         "(so truncation is retried); prefix_path evaluates to cut(cut(executable_path())) + separator in whichever spelling (helpers, npos ?: forms, += / push_back); "
-        "endianness() yields big/little/mixed exactly when byte 0 of a whole-object copy of a probe with distinct bytes is its MSB/LSB/anything else, compile-time tests folded to this target. The path obtained from the OS is returned unedited (no erase/resize/replace after it was built).",
+        "endianness() yields big/little/mixed exactly when byte 0 of a whole-object copy of a probe with distinct bytes is its MSB/LSB/anything else, compile-time tests folded to this target. The path obtained from the OS is returned unedited (no erase/resize/replace after it was built). readlink is decided path-wise: every string built from the buffer lies behind len >= 0 and len < capacity of the latest call and takes exactly that length (wrappers and functors that forward to readlink are calls of it); prefix_path is evaluated through helpers that edit or return strings.",
    note="What the OS returns for a given install location is outside static reach; only the Linux branch of xsystem.hpp is visible in this sandbox."),
  "C13": dict(level="other", design="4.11",
    technique="type/mask-based interval analysis of table subscripts (const locals read through) + alphabet/sentinel agreement + sentinel-guard dominance in the input loop + accumulator-constant consistency, with locals substituted and comparisons normalised (operand order, negation); bit-provenance dataflow of the alphabet indices of group-wise encoders; exact folding of an alphabet given as a function",
